@@ -938,6 +938,15 @@ def p_send_buf_capacity(site):
                 v = w['value']
                 if not (v[0] == 'call' and calls[v[1]]['res'] == 'bytes::buf::Limit::into_inner'):
                     return False, 'send_message stores something other than the taken buffer back into send_buf'
+        # ... on every way out, error exits included: a `?` between the take and the put-back leaves send_buf with
+        # capacity 0 and the next send fails the assertion
+        if p.end == 'return':
+            tk = [k for k, w in enumerate(p.events) if w['kind'] == 'write' and w['place'] == q.self_field('send_buf')
+                  and w.get('via') == 'mem::take']
+            back = [k for k, w in enumerate(p.events) if w['kind'] == 'write' and w['place'] == q.self_field('send_buf')
+                    and w.get('via') != 'mem::take']
+            if tk and not (back and back[-1] > tk[-1]):
+                return False, 'send_message can return (an error exit) without putting the taken buffer back into send_buf'
     return True, ''
 
 
